@@ -28,6 +28,7 @@ RULE += (' Also: managers that are awaitable as well (being awaited is reported)
 RULE += (' Also: managers swallowing every BaseException the body raises.')
 RULE += (' Also: bodies raising subclasses of GeneratorExit / StopAsyncIteration.')
 RULE += (' Also: the decorated function as a plain function that works when called and returns an awaitable.')
+RULE += (" Also: contexts replacing the body's failure by a RuntimeError of their own.")
 ASSUMPTIONS = ["class-based ContextDecorator instances are shared between calls (documented default of _recreate_cm)"]
 EXHAUSTIVE_SUBSPACES = 'every scenario counted in scenarios_explored_exhaustively had ALL its interleavings executed'
 EXHAUSTIVE = {"quick": False, "thorough": False}
@@ -56,12 +57,19 @@ def cases(tier, seed, shard, nshards):
                "calls": calls, "susp": susp, "cancel_task": rng.randrange(nt) if rng.random() < 0.45 else None,
                "runs": DFS_LIMIT[tier] if mode == "dfs" else RANDOM_RUNS[tier], "seed": rng.randrange(1 << 30),
                "exc": rng.choice(PLANNED_NAMES + ["exact:" + k for k in EXACT]),
-               "translate": rng.choice([None, None, "from", "from", "implicit", "from_none"])}
+               "translate": rng.choice([None, None, "from", "from", "implicit", "from_none"]),
+               # ... by an exception of its own that IS a RuntimeError (the type the generator protocol itself uses to
+               # report a Stop(Async)Iteration that escaped): still the context's replacement, whatever the chaining
+               "translate_runtime": rng.random() < 0.4}
 
 
 BodyError = Planned  # the body's failure: one of the PLANNED family, chosen per scenario
 class Translated(Exception):
     """What a context raises in place of the body's failure."""
+
+
+class TranslatedRuntime(Translated, RuntimeError):
+    pass
 
 
 class ShutdownSignal(GeneratorExit):
@@ -100,7 +108,11 @@ def execute(case, choose, cancel_at=None):
         how = case.get("translate")
         if how is None or not isinstance(exc, Exception):
             return
-        new = Translated(len(translated))
+        # (a RuntimeError raised explicitly ``from`` a Stop(Async)Iteration is indistinguishable from the generator
+        # protocol's own conversion of an escaped Stop(Async)Iteration - contextlib, too, reads it as "the generator
+        # did not handle the exception"; that combination is left out)
+        runtime = case.get("translate_runtime") and not (how == "from" and isinstance(exc, (StopIteration, StopAsyncIteration)))
+        new = (TranslatedRuntime if runtime else Translated)(len(translated))
         translated[id(exc)] = (exc, new)
         if how == "from":
             raise new from exc
